@@ -2615,8 +2615,10 @@ void Analyser::AnalyserImpl::analyseModel(const ModelPtr &model)
             if (owningModel(variable) != model) {
                 auto issue = Issue::IssueImpl::create();
 
+                auto component = owningComponent(variable);
+
                 issue->mPimpl->setDescription("Variable '" + variable->name()
-                                              + "' in component '" + owningComponent(variable)->name()
+                                              + ((component != nullptr) ? "' in component '" + component->name() : "")
                                               + "' is marked as an external variable, but it belongs to a different model and will therefore be ignored.");
                 issue->mPimpl->setLevel(Issue::Level::MESSAGE);
                 issue->mPimpl->setReferenceRule(Issue::ReferenceRule::ANALYSER_EXTERNAL_VARIABLE_DIFFERENT_MODEL);
@@ -3345,9 +3347,11 @@ AnalyserExternalVariablePtrs::const_iterator Analyser::AnalyserImpl::findExterna
 {
     return std::find_if(mExternalVariables.begin(), mExternalVariables.end(), [=](const auto &ev) {
         auto variable = ev->variable();
+        auto component = (variable != nullptr) ? owningComponent(variable) : nullptr;
 
-        return (owningModel(variable) == model)
-               && (owningComponent(variable)->name() == componentName)
+        return (component != nullptr)
+               && (owningModel(variable) == model)
+               && (component->name() == componentName)
                && (variable->name() == variableName);
     });
 }
